@@ -132,6 +132,9 @@ def parse_f64_bytes(ex, items):
         if not neg: ex.solver.add(z3.Not(z3.fpIsNegative(v)))
         ex.float_defs[v.get_id()] = FloatText(neg, ip or [48], fp)
         return v
+    if has_exp and nd <= 15 and len(ex_d) <= 2 and any(is_sym(d) for d in ex_d):
+        # the exponent decides the magnitude: fork over its digit values (at most 100 ways)
+        ex_d = [d if not is_sym(d) else 48 + ex.choose([d == 48 + k for k in range(10)]) for d in ex_d]
     if has_exp and nd <= 15 and all(not is_sym(d) for d in ex_d) and len(ex_d) <= 3:
         e = int(bytes(ex_d)) * (-1 if ex_neg else 1) - len(fp)
         if abs(e) <= 22:
